@@ -175,13 +175,20 @@ def no_shared_state(ctx, ss, rule: str, entries: list[tuple[str, str]]):
 READ_PATH = [("dec/dec.py", "DecFileParser.__init__"), ("dec/dec.py", "DecFileParser.from_string"), ("dec/dec.py", "DecFileParser.parse")]
 
 
-def reading_path(ctx, ss, rule: str, queries: list[str], what: str):
+def reading_path(ctx, ss, rule: str, queries: list[str], what: str, assembly: bool = True):
     """The path text -> parsed tables -> answer of `queries` (qualnames in dec/dec.py) remembers nothing under a key that
     does not determine the answer: no memoisation on parsers / trees / paths / containers, and the constructor, from_string
     and parse() write no module or class state shared between parser instances."""
     entries = [f"{m}:{q}" for m, q in READ_PATH] + [f"dec/dec.py:{q}" for q in queries]
     memo_discipline(ctx, ss, rule, entries, what)
     no_shared_state(ctx, ss, rule, READ_PATH)
+    if assembly:
+        # the text that is parsed is the whole content of the files given: every line except a lone `End`, BOM stripped, a line
+        # break after each file (the clauses C02.6 - C02.8, relabelled)
+        from .c02 import p6, p7, p8
+        from .c05 import _as
+        for f_ in (p6, p7, p8):
+            ctx.guard(rule, lambda c, s, f_=f_: _as(c, s, f_, rule), ss)
 
 
 # entry points per property for the memoisation discipline (the public functions the property observes)
